@@ -116,6 +116,13 @@ Theorem C15_rejoin_receives_snapshot : forall J S k c v,
   peers_has (sn_id S) c (sn_peers (join_pull J S)) = true.
 Proof. exact rejoin_receives_snapshot. Qed.
 
+(** ... and when that node dies afterwards, the rejoined node - which learnt the instance through the
+    SNAPSHOT only - drops it like everybody else (the snapshot arm records the sender's client ids) *)
+Theorem C15_rejoin_then_death_clean : forall J S k c v,
+  sn_id S <> 0 -> wf_own S -> own S k = Some (c, v) ->
+  aget k (sn_reg (fst (mark_dead (join_pull J S) (sn_id S)))) = None.
+Proof. exact rejoin_then_death_clean. Qed.
+
 (** * HTTP instances (routed writes, batches from the owner); all live nodes share the view [v] *)
 
 (** a registration handed to ANY live node is, after the owner's batch, held by EVERY live node: locally
